@@ -5,6 +5,7 @@ each `Code` variant comes from folding the repository's own `Print for Code`.  W
 knowledge (the ISA) and lives here.  Values are symbolic expressions; equality is syntactic after normalisation."""
 from . import backend
 from .facts import AnalysisError
+from . import interp
 from .interp import Adt, Sym, StrCat
 
 CALLER_SAVED = {
@@ -180,7 +181,7 @@ def operands(ctx, arch, code):
         if isinstance(v, Adt) and v.path and v.path.endswith("::Register"):
             return ("reg", names.get(repr(v), repr(v)))
         if isinstance(v, Adt) and v.path and v.path.endswith("::Immediate"):
-            return ("imm", v.fields.get("val"))
+            return ("imm", interp.sole_int(v))
         if isinstance(v, (str, StrCat)):
             return ("label", v)
         if isinstance(v, int):
@@ -353,7 +354,7 @@ def step_a64(m, variant, mn, ops):
     elif mn in ("MOVZ", "MOVN", "MOVK"):
         imm = ops[1][1]
         sh = ops[2][1] if len(ops) > 2 else 0
-        sh = sh.fields.get("val") if isinstance(sh, Adt) else sh
+        sh = interp.sole_int(sh)
         if not (isinstance(imm, int) and isinstance(sh, int)):
             _set(m, ops[0], var("movwide"))
             return
